@@ -13,6 +13,7 @@ instance : NumCmpOps Float where
   lt a b := a < b
   feq a b := a == b
   isNaN := Float.isNaN
+  isFinite := Float.isFinite
   eps := Float.ofBits 0x3cb0000000000000
   chanTol := Float.ofBits 0x3e7ad7f29abcaf48
 
